@@ -134,11 +134,13 @@ package textwire
 // separators) without leading and trailing slashes, so that the paths the walk produces
 // begin with it whatever spelling the caller used
 //@ func Configure
-//@   ensures opt != nil ==> userConfig.DebugMode == opt.DebugMode
+//@   ensures debug-switch-taken-over: opt != nil ==> userConfig.DebugMode == old(opt.DebugMode)
 //@   ensures directory-without-surrounding-slashes: opt != nil && old(opt.TemplateDir) != "" ==> userConfig.TemplateDir == lib("strings.Trim", lib("filepath.ToSlash", lib("filepath.Clean", old(opt.TemplateDir))), "/")
 //@   ensures directory-kept: opt == nil || old(opt.TemplateDir) == "" ==> userConfig.TemplateDir == old(userConfig.TemplateDir)
 //@   ensures extension-taken-over: opt != nil && old(opt.TemplateExt) != "" ==> userConfig.TemplateExt == old(opt.TemplateExt)
 //@   ensures extension-kept: opt == nil || old(opt.TemplateExt) == "" ==> userConfig.TemplateExt == old(userConfig.TemplateExt)
+//@   ensures error-page-taken-over: opt != nil && old(opt.ErrorPagePath) != "" ==> userConfig.ErrorPagePath == old(opt.ErrorPagePath)
+//@   ensures error-page-kept: opt == nil || old(opt.ErrorPagePath) == "" ==> userConfig.ErrorPagePath == old(userConfig.ErrorPagePath)
 //@   ensures usesTemplates
 //@   modifies userConfig.*, usesTemplates
 
@@ -148,6 +150,7 @@ package textwire
 
 //@ func applyLayoutToProgram
 //@   requires ProgWF(prog)
+//@   requires layouts-are-looked-up-in-the-template-directory: usesTemplates
 //@   goal untouched-without-use: prog.UseStmt == nil ==> result == nil && prog.Statements == old(prog.Statements)
 //@   goal layout-replaces-page: result == nil && old(prog.UseStmt) != nil ==> len(prog.Statements) == 1 && prog.Statements[0] == iface(prog.UseStmt) && prog.UseStmt.Program != nil && prog.UseStmt.Program.IsLayout
 //@   modifies prog.Statements, prog.UseStmt.Program, anyfield(ast.ReserveStmt.Insert)
@@ -155,6 +158,7 @@ package textwire
 //@ func applyComponentToProgram
 //@   call New#0: assert unknown-component-names-the-use-and-the-page: arg0 == comp.Token.Pos.EndLine + 1 && arg1 == progFilePath
 //@   requires prog != nil && forall(i, 0, len(prog.Components), prog.Components[i].Block == nil)
+//@   requires components-are-looked-up-in-the-template-directory: usesTemplates
 //@   requires forall(i, 0, len(prog.Components), WFNode(iface(prog.Components[i])))
 //@   requires forall(i, 0, len(prog.Components), forall(j, 0, len(prog.Components), i != j ==> prog.Components[i] != prog.Components[j]))
 //@   goal independent: result == nil ==> forall(i, 0, len(prog.Components), forall(j, 0, len(prog.Components), i != j && prog.Components[i].Block != nil ==> prog.Components[i].Block != prog.Components[j].Block))
@@ -164,9 +168,10 @@ package textwire
 //@   loop 0: invariant forall(i, 0, len(prog.Components), forall(j, 0, len(prog.Components), i != j && prog.Components[i].Block != nil ==> prog.Components[i].Block != prog.Components[j].Block))
 
 //@ func parsePrograms
+//@   requires files-are-resolved-in-the-template-directory: usesTemplates
 //@   ensures result1 != nil ==> result0 == nil
 //@   ensures result1 == nil ==> result0 != nil && forallkey(result0, k, result0[k] != nil && WFNode(iface(result0[k])) && len(result0[k].Reserves) == 0)
-//@   modifies *
+//@   modifies anyfield(ast.Program.Statements), anyfield(ast.UseStmt.Program), anyfield(ast.ReserveStmt.Insert), anyfield(ast.ComponentStmt.Block), anyfield(ast.SlotStmt.Body)
 //@   loop 0: invariant fresh(names) && len(names) >= 0 && result != nil && fresh(result) && emptymap(result)
 //@   loop 0: deterministic-by-contract
 //@   loop 1: invariant result != nil && fresh(result) && forallkey(result, k, result[k] != nil && WFNode(iface(result[k])) && len(result[k].Reserves) == 0)
@@ -176,7 +181,15 @@ package textwire
 //@   call applyComponentToProgram#0: bind compErr
 //@   loop 1: continues-only-if every-file-has-its-layout-and-components-resolved: layoutErr == nil && compErr == nil
 
+// C17/C18: loading leaves the configuration exactly as Configure stored it (the error page,
+// the debug switch, the directory and the extension are read again at every render)
 //@ func NewTemplate
 //@   ensures result1 != nil ==> result0 == nil
 //@   ensures result1 == nil ==> TplInv(result0)
-//@   modifies *
+//@   goal error-page-is-the-configured-one: opt != nil && old(opt.ErrorPagePath) != "" ==> userConfig.ErrorPagePath == old(opt.ErrorPagePath)
+//@   goal error-page-kept-without-one: opt == nil || old(opt.ErrorPagePath) == "" ==> userConfig.ErrorPagePath == old(userConfig.ErrorPagePath)
+//@   goal debug-switch-is-the-configured-one: opt != nil ==> userConfig.DebugMode == old(opt.DebugMode)
+//@   goal extension-is-the-configured-one: opt != nil && old(opt.TemplateExt) != "" ==> userConfig.TemplateExt == old(opt.TemplateExt)
+//@   goal directory-is-the-cleaned-configured-one: opt != nil && old(opt.TemplateDir) != "" ==> userConfig.TemplateDir == lib("strings.Trim", lib("filepath.ToSlash", lib("filepath.Clean", old(opt.TemplateDir))), "/")
+//@   goal templates-are-in-use: usesTemplates
+//@   modifies userConfig.*, usesTemplates, anyfield(ast.Program.Statements), anyfield(ast.UseStmt.Program), anyfield(ast.ReserveStmt.Insert), anyfield(ast.ComponentStmt.Block), anyfield(ast.SlotStmt.Body)
